@@ -135,8 +135,10 @@ def ser_xml_like(lines, rng, fmt):
             is_cd = [False] * len(ws)
             if fmt == "dfxp" and CDATA_RNG is not None:
                 # XML only: a word authored inside a CDATA section is character data like any other
-                is_cd = [("]]>" not in w and CDATA_RNG.random() < 0.06) for w in ws]
-                toks = [("<![CDATA[%s]]>" % w) if cd else tk for w, tk, cd in zip(ws, toks, is_cd)]
+                is_cd = [("]]>" not in w and CDATA_RNG.random() < (0.5 if "&apos;" in w else 0.06)) for w in ws]
+                # (a section may begin on a new source line: the line break and indentation inside it are white space like any other)
+                toks = [("<![CDATA[%s%s]]>" % (CDATA_RNG.choice(["", "", "\n", "\n     "]) if k_ else "", w)) if cd else tk
+                        for k_, (w, tk, cd) in enumerate(zip(ws, toks, is_cd))]
             txt = toks[0]
             # a run of plain words right after an inline element is wrapped more often (the blank between the element
             # and the run is then the leading blank of a multi-line text leaf)
